@@ -36,6 +36,8 @@ pub enum Dir {
     In,
     Out,
     Bidir,
+    /// only inside recorded driver answers: an entry for a declared (virtual) signal of the test itself
+    Virt,
 }
 
 #[derive(Clone, Debug, PartialEq)]
@@ -49,10 +51,10 @@ pub struct SigSpec {
 
 impl SigSpec {
     pub fn is_input(&self) -> bool {
-        self.dir != Dir::Out
+        matches!(self.dir, Dir::In | Dir::Bidir)
     }
     pub fn is_output(&self) -> bool {
-        self.dir != Dir::In
+        matches!(self.dir, Dir::Out | Dir::Bidir)
     }
 }
 
@@ -1099,6 +1101,7 @@ pub fn gen_case(r: &mut Prng, p: &Profile) -> Case {
                     cols.push((s.name.clone(), false, s.bits));
                 }
             }
+            Dir::Virt => {}
             Dir::Bidir => {
                 if !omit {
                     cols.push((s.name.clone(), true, s.bits));
